@@ -461,6 +461,9 @@ class C23(Check):
 
     def run_shard(self, tier, seed, shard, nshards):
         res = ShardResult()
+        if not jitlab.shard_enabled(shard):
+            res.dropped["shard-not-selected(VERIF_ONLY_SHARDS)"] += 1
+            return res
         nrand = 12 if tier == "thorough" else 3
         rng = random.Random(seed ^ 0x5bd1e995)
         with jitlab.JitLab(time_limit=600 if tier == "thorough" else 300) as lab:
